@@ -19,7 +19,7 @@ demo() {  # compile (if C++) and run the demonstration in its directory; echo ex
       demo.cpp -o demo.bin -Wl,-rpath,$B/OpenMEEG:$B/OpenMEEGMaths -L$B/OpenMEEG -L$B/OpenMEEGMaths -lOpenMEEG -lOpenMEEGMaths -llapacke -lopenblas -lmatio >> $log 2>&1 || { echo 99; return; }
     timeout 600 ./demo.bin >> $log 2>&1; echo $?
   else
-    BUILD=$B REPO=$R timeout 900 sh ./demo.sh >> $log 2>&1; echo $?
+    BUILD=$B REPO=$R timeout 900 bash ./demo.sh $B >> $log 2>&1; echo $?
   fi
 }
 build || { say "unchanged tree does not build"; exit 2; }
@@ -27,7 +27,11 @@ d0=$(demo); say "demo on unchanged tree: exit $d0"
 git -C $R apply --whitespace=nowarn $O/patch.diff || { say "patch does not apply"; exit 2; }
 if build; then
   ( cd $B && ctest -j8 --timeout 900 > $O/ctest.log 2>&1 ); tail -3 $O/ctest.log | tee -a $log
-  fails=$(grep -c "\*\*\*Failed\|\*\*\*Exception\|\*\*\*Timeout" $O/ctest.log)
+  fails=$(grep -c "\*\*\*Failed\|\*\*\*Exception\|\*\*\*Timeout\|\*\*\*Not Run" $O/ctest.log)
+  if [ "$fails" != "0" ]; then   # the suite has known races between parallel tests: rerun the failed ones serially
+    ( cd $B && ctest -j1 --timeout 900 > $O/ctest_rerun.log 2>&1 ); tail -3 $O/ctest_rerun.log | tee -a $log
+    fails=$(grep -c "\*\*\*Failed\|\*\*\*Exception\|\*\*\*Timeout\|\*\*\*Not Run" $O/ctest_rerun.log)
+  fi
   d1=$(demo); say "demo with the change: exit $d1; failing tests: $fails"
 else
   say "patched tree does not build"; d1=-1; fails=-1
